@@ -1,6 +1,259 @@
-//! C02 -- monitor (to be written)
-use crate::fw::ctx;
+//! C02 -- circuit -> diagram translation denotes exactly the circuit's linear map.
+//!
+//! Events: for each generated circuit (full supported gate set, ancilla initialisation as
+//! a qubit's first operation, post-selection as its last), each translation mode
+//! (plain, simplify-while-building, post-selected CCZ gadgets) and each backend:
+//! g = to_graph_with_options(mode). Oracle: no panic; E(g) (independent ZX evaluator O2)
+//! == U(c) (independent gate-matrix simulator O3) as tensors [inputs.., outputs..] with the
+//! surviving qubits in ascending order on both sides; exact for pi/4 phases.
+
+use crate::fw::{ctx, guarded, par_cases};
+use crate::gen::circuit::*;
+use crate::gen::prng::Rng;
+use crate::oracle::eval::EvalError;
+use crate::oracle::sim::{tensor_exact, tensor_float, Circ, G};
+use crate::snap::{eval_graph, graph_json, Tens, FLOAT_TOL};
+use quizx::graph::GraphLike;
+use serde_json::json;
+
+pub const MODES: [(bool, bool, &str); 3] = [(false, false, "plain"), (true, false, "simplify"), (false, true, "postselect-ccz")];
+
+/// Move each trailing PostSel(q) to just after the last earlier gate touching q, and each
+/// leading InitAnc(q) to just before the first gate touching q (equivalent circuits that
+/// interleave ancilla handling with other gates).
+pub fn interleave(r: &mut Rng, c: &Circ) -> Circ {
+    let mut gates = c.gates.clone();
+    // post-selections
+    let mut i = gates.len();
+    while i > 0 {
+        i -= 1;
+        if let G::PostSel(q) = gates[i].clone() {
+            if r.chance(0.7) {
+                let g = gates.remove(i);
+                let mut pos = 0;
+                for (j, h) in gates.iter().enumerate().take(i) {
+                    if h.qubits().contains(&q) {
+                        pos = j + 1;
+                    }
+                }
+                gates.insert(pos, g);
+            }
+        }
+    }
+    let mut i = 0;
+    while i < gates.len() {
+        if let G::InitAnc(q) = gates[i].clone() {
+            if r.chance(0.7) {
+                let g = gates.remove(i);
+                let mut pos = gates.len();
+                for (j, h) in gates.iter().enumerate().skip(i) {
+                    if h.qubits().contains(&q) {
+                        pos = j;
+                        break;
+                    }
+                }
+                gates.insert(pos, g);
+                // do not advance: the element now at i is a different gate
+                if pos == i {
+                    i += 1;
+                }
+                continue;
+            }
+        }
+        i += 1;
+    }
+    Circ { n: c.n, gates }
+}
+
+pub fn reference(c: &Circ) -> Tens {
+    if c.is_pi4() {
+        Tens::Exact(tensor_exact(c).0)
+    } else {
+        Tens::Float(tensor_float(c).0)
+    }
+}
+
+fn check_backend<Gr: GraphLike>(family: &'static str, index: u64, backend: &str, c: &Circ, expect: &Tens) {
+    let cx = ctx();
+    let qc = to_quizx(c);
+    for (simp, post, mname) in MODES {
+        cx.count(&format!("mode:{mname}:{backend}"), 1);
+        let r = guarded(|| qc.to_graph_with_options::<Gr>(simp, post));
+        let detail = |what: &str, extra: serde_json::Value| {
+            json!({"what": what, "mode": mname, "backend": backend, "circuit": circ_json(c), "qasm": print_qasm(c), "extra": extra})
+        };
+        // signature discriminator: the set of "special" gate kinds present
+        let mut kinds: Vec<&str> = c
+            .gates
+            .iter()
+            .map(|g| g.name())
+            .filter(|n| matches!(*n, "swap" | "xcx" | "ccz" | "ccx" | "pp" | "init_anc" | "post_sel"))
+            .collect();
+        kinds.sort();
+        kinds.dedup();
+        let disc = kinds.join("+");
+        let g = match r {
+            Ok(g) => g,
+            Err(e) => {
+                cx.violation(&format!("to_graph[{mname}]|panic|{}", e.site()), family, index, detail("panic", json!(e.text())));
+                continue;
+            }
+        };
+        match eval_graph(&g) {
+            Ok(t) => {
+                if t.len() != expect.len() {
+                    cx.violation(
+                        &format!("to_graph[{mname}]|arity|{disc}"),
+                        family,
+                        index,
+                        detail("wrong number of open wires", json!({"got": t.len(), "expected": expect.len(), "graph": graph_json(&g)})),
+                    );
+                } else if !t.same(expect, FLOAT_TOL) {
+                    let prop = t.proportional(expect, FLOAT_TOL);
+                    cx.violation(
+                        &format!("to_graph[{mname}]|{}|{disc}", if prop { "scalar-wrong" } else { "map-wrong" }),
+                        family,
+                        index,
+                        detail("diagram does not denote the circuit's map", json!({"got": t.brief(), "expected": expect.brief(), "graph": graph_json(&g)})),
+                    );
+                }
+            }
+            Err(EvalError::IllFormed(m)) => {
+                cx.violation(&format!("to_graph[{mname}]|ill-formed|{disc}"), family, index, detail("ill-formed diagram", json!({"why": m, "graph": graph_json(&g)})));
+            }
+            Err(EvalError::TooWide(_)) => cx.skipped(),
+        }
+    }
+}
+
+pub fn check_circuit(family: &'static str, index: u64, c: &Circ) {
+    let cx = ctx();
+    let expect = reference(c);
+    check_backend::<quizx::vec_graph::Graph>(family, index, "vec", c, &expect);
+    check_backend::<quizx::hash_graph::Graph>(family, index, "hash", c, &expect);
+    for g in &c.gates {
+        cx.count(&format!("gate:{}", g.name()), 1);
+    }
+    cx.case(family, if c.gates.is_empty() { None } else { Some(circ_hash(c)) });
+    cx.evals(5);
+    cx.sample_n(5, || json!({"family": family, "index": index, "circuit": circ_json(c)}));
+}
+
+/// all single-gate circuits on n qubits (exhaustive placements)
+fn single_gate_circuits(n: usize) -> Vec<Circ> {
+    let mut out = vec![];
+    let ph = [(1i64, 4i64), (1, 2), (1, 1), (-3, 4), (0, 1)];
+    for q in 0..n {
+        for g in [G::X(q), G::Z(q), G::S(q), G::T(q), G::Sdg(q), G::Tdg(q), G::H(q), G::InitAnc(q), G::PostSel(q)] {
+            out.push(Circ { n, gates: vec![g] });
+        }
+        for p in ph {
+            out.push(Circ { n, gates: vec![G::Rz(q, p)] });
+            out.push(Circ { n, gates: vec![G::Rx(q, p)] });
+            out.push(Circ { n, gates: vec![G::Pp(vec![q], p)] });
+        }
+    }
+    for a in 0..n {
+        for b in 0..n {
+            if a == b {
+                continue;
+            }
+            for g in [G::Cx(a, b), G::Cz(a, b), G::Xcx(a, b), G::Swap(a, b)] {
+                out.push(Circ { n, gates: vec![g] });
+            }
+            out.push(Circ { n, gates: vec![G::Pp(vec![a, b], (1, 4))] });
+            // asymmetric follow-up to expose orientation errors
+            out.push(Circ { n, gates: vec![G::Swap(a, b), G::T(a), G::H(b)] });
+            out.push(Circ { n, gates: vec![G::H(a), G::Cx(a, b), G::T(b)] });
+            for c in 0..n {
+                if c == a || c == b {
+                    continue;
+                }
+                out.push(Circ { n, gates: vec![G::Ccz(a, b, c)] });
+                out.push(Circ { n, gates: vec![G::Ccx(a, b, c)] });
+                out.push(Circ { n, gates: vec![G::Pp(vec![a, b, c], (-1, 4))] });
+                out.push(Circ { n, gates: vec![G::H(c), G::Ccx(a, b, c), G::T(c)] });
+            }
+        }
+    }
+    out
+}
 
 pub fn run() {
-    ctx().harness_error("C02 monitor not implemented yet");
+    let c = ctx();
+    let t = c.tier;
+    c.set_rule("cases = generated circuits; each is translated in 3 modes x 2 backends (evaluations counts these); non-trivial = at least one gate; distinct = distinct gate sequences (64-bit hash)");
+    c.assume("oracles O2 (ZX evaluator) and O3 (gate-matrix simulator) are correct; they are self-tested and cross-checked against each other at every start");
+    c.assume("ancilla initialisation is generated only as a qubit's first operation and post-selection only as its last, as the translation documents");
+
+    // exhaustive single-gate placements
+    let max_n = t.pick(3usize, 4usize);
+    let mut singles = vec![];
+    for n in 1..=max_n {
+        singles.extend(single_gate_circuits(n));
+    }
+    let ns = singles.len();
+    c.extra("single_gate_placements", json!(ns));
+    let singles = std::sync::Arc::new(singles);
+    {
+        let singles = singles.clone();
+        par_cases("single-gate-placements", ns, move |_r, i| {
+            check_circuit("single-gate-placements", i, &singles[i as usize]);
+        });
+    }
+    let (nq, depth, n) = t.pick((4usize, 24usize, 1500usize), (6usize, 50usize, 60_000usize));
+    par_cases("unitary-exact", n, move |r, i| {
+        let p = CircParams::unitary(nq, depth, PhPool::Exact);
+        let circ = gen_circuit(r, &p);
+        check_circuit("unitary-exact", i, &circ);
+    });
+    par_cases("unitary-float", n / 3, move |r, i| {
+        let p = CircParams::unitary(nq, depth, PhPool::Float);
+        let circ = gen_circuit(r, &p);
+        check_circuit("unitary-float", i, &circ);
+    });
+    par_cases("ancilla-postselect", n, move |r, i| {
+        let mut p = CircParams::unitary(nq, depth, PhPool::Exact);
+        p.ancilla = true;
+        let circ = gen_circuit(r, &p);
+        let circ = interleave(r, &circ);
+        check_circuit("ancilla-postselect", i, &circ);
+    });
+    par_cases("swap-heavy", n / 2, move |r, i| {
+        let mut p = CircParams::unitary(nq.min(4), depth / 2, PhPool::Exact);
+        p.ccz = false;
+        p.pp = false;
+        p.ancilla = r.chance(0.5);
+        let mut circ = gen_circuit(r, &p);
+        // sprinkle extra swaps
+        let k = 1 + r.below(4);
+        for _ in 0..k {
+            if circ.n >= 2 {
+                let a = r.below(circ.n);
+                let mut b = r.below(circ.n);
+                if a == b {
+                    b = (a + 1) % circ.n;
+                }
+                // insert before the trailing post-selections so the discipline holds
+                let end = circ.gates.iter().position(|g| matches!(g, G::PostSel(_))).unwrap_or(circ.gates.len());
+                let start = circ.gates.iter().rposition(|g| matches!(g, G::InitAnc(_))).map(|x| x + 1).unwrap_or(0);
+                let pos = start + r.below(end.saturating_sub(start) + 1);
+                circ.gates.insert(pos.min(end), G::Swap(a, b));
+            }
+        }
+        check_circuit("swap-heavy", i, &circ);
+    });
+    par_cases("ccz-toffoli", n / 4, move |r, i| {
+        let mut p = CircParams::unitary(nq.max(3), 8, PhPool::Exact);
+        p.min_qubits = 3;
+        p.ancilla = r.chance(0.3);
+        let mut circ = gen_circuit(r, &p);
+        // make sure a CCZ/CCX is present
+        let mut qs: Vec<usize> = (0..circ.n).collect();
+        r.shuffle(&mut qs);
+        let pos = circ.gates.iter().position(|g| matches!(g, G::PostSel(_))).unwrap_or(circ.gates.len());
+        let g = if r.chance(0.5) { G::Ccz(qs[0], qs[1], qs[2]) } else { G::Ccx(qs[0], qs[1], qs[2]) };
+        circ.gates.insert(pos, g);
+        check_circuit("ccz-toffoli", i, &circ);
+    });
 }
